@@ -26,9 +26,12 @@ import errno
 import hashlib
 import io
 import os
+import random
 import stat as statmod
 import sys
+import tempfile
 import threading
+import time
 
 SIMROOT = "/simroot"
 
@@ -220,6 +223,7 @@ class Incarnation:
 
     def __init__(self, task, no):
         self.task, self.no, self.dead = task, no, False
+        self.entropy = 0            # counter behind the simulated os.urandom / temp-file names
 
 
 class Task:
@@ -265,6 +269,8 @@ class World:
         self.parse_steps = 0
         self.parse_step_budget = None
         self.unsupported = None
+        self.fds = {}               # simulated file descriptors (os.open on simulated paths)
+        self.next_fd = 1000000
         self.hot = False
         self.hot_path = None
         self.chase = None           # race-directed scheduling state (see run())
@@ -474,6 +480,75 @@ class World:
             return buf if buffering != 0 else raw
         return io.TextIOWrapper(buf, encoding=encoding, errors=errors, newline=newline)
 
+    # -- low-level descriptors (tempfile.mkstemp, os.open/os.fdopen) ---------------------------------
+    def sim_os_open(self, path, flags):
+        inc = self.current
+        acc = flags & (os.O_WRONLY | os.O_RDWR)
+        if acc == 0:
+            opname = "open-r"
+        elif flags & os.O_APPEND:
+            opname = "open-a"
+        elif flags & os.O_TRUNC or flags & os.O_CREAT:
+            opname = "open-w"
+        else:
+            opname = "open-rw"
+        self.gate(inc, opname, path)
+        if path in self.dirs:
+            if acc == 0:
+                raise Unsupported("os.open of a simulated directory %s" % path)
+            self.log_event(inc, opname, path, "EISDIR")
+            raise IsADirectoryError(errno.EISDIR, os.strerror(errno.EISDIR), path)
+        exists = path in self.files
+        if exists and flags & os.O_CREAT and flags & os.O_EXCL:
+            self.log_event(inc, opname, path, "EEXIST")
+            raise FileExistsError(errno.EEXIST, os.strerror(errno.EEXIST), path)
+        if not exists:
+            if not flags & os.O_CREAT:
+                self.log_event(inc, opname, path, "ENOENT")
+                raise self._enoent(path)
+            if os.path.dirname(path) not in self.dirs:
+                self.log_event(inc, opname, path, "ENOENT")
+                raise self._enoent(path)
+            self.files[path] = b""
+            self.note_mutation(inc, path)
+        elif flags & os.O_TRUNC and acc:
+            self.files[path] = b""
+            self.note_mutation(inc, path)
+        fd = self.next_fd
+        self.next_fd += 1
+        self.fds[fd] = {"path": path, "flags": flags, "raw": None, "inc": inc}
+        self.log_event(inc, opname, path, "ok", fd - 1000000)
+        return fd
+
+    def fd_raw(self, fd):
+        ent = self.fds[fd]
+        if ent["raw"] is None:
+            ent["raw"] = _RWRaw(self, ent["inc"] or _HARNESS_INC, ent["path"], append=bool(ent["flags"] & os.O_APPEND))
+        return ent["raw"]
+
+    def sim_fd_open(self, fd, mode, buffering, encoding, errors, newline, closefd):
+        """builtins.open(<simulated fd>, mode): a file object on the descriptor's file"""
+        ent = self.fds[fd]
+        raw = self.fd_raw(fd)
+        world = self
+
+        class _Owner(io.BufferedRandom):
+            def close(self_inner):
+                try:
+                    super().close()
+                finally:
+                    if closefd:
+                        world.fds.pop(fd, None)
+        if "r" in mode and "+" not in mode:
+            buf = io.BufferedReader(raw)
+        else:
+            buf = _Owner(raw)
+        if "b" in mode:
+            return buf
+        if encoding is None:
+            encoding = ent["inc"].task.locale if ent["inc"] else "utf-8"
+        return io.TextIOWrapper(buf, encoding=encoding, errors=errors, newline=newline)
+
     def sim_stat(self, path):
         inc = self.current
         self.gate(inc, "stat", path)
@@ -573,6 +648,7 @@ class World:
         self.step += 1
         task.steps += 1
         task.inc_steps += 1
+        random.seed("%s/%d" % (task.name, inc.no))      # a fresh process would seed from the OS: here, from its identity
         try:
             if task.action is not None and task.action[0] == "crash":
                 task.action = None
@@ -728,10 +804,23 @@ def _patched_open(file, mode="r", buffering=-1, encoding=None, errors=None, newl
     w = WORLD
     if w is None:
         return _real["open"](file, mode, buffering, encoding, errors, newline, closefd, opener)
+    if isinstance(file, int) and file in w.fds:
+        return w.sim_fd_open(file, mode, buffering, encoding, errors, newline, closefd)
     is_sim, p = w.route(file)
     if is_sim:
         if opener is not None:
-            raise Unsupported("open(opener=...) on simulated path")
+            # open(path, mode, opener=f): f(path, flags) -> descriptor (tempfile.NamedTemporaryFile does this)
+            flags = os.O_RDWR if "+" in mode else (os.O_RDONLY if "r" in mode else os.O_WRONLY)
+            if "w" in mode:
+                flags |= os.O_CREAT | os.O_TRUNC
+            if "a" in mode:
+                flags |= os.O_CREAT | os.O_APPEND
+            if "x" in mode:
+                flags |= os.O_CREAT | os.O_EXCL
+            fd = opener(p, flags)
+            if fd not in w.fds:
+                raise Unsupported("open(opener=...) returned a real descriptor for simulated path %s" % p)
+            return w.sim_fd_open(fd, mode, buffering, encoding, errors, newline, True)
         return w.sim_open(p, mode, buffering, encoding, errors, newline)
     inc = w.current
     if inc is not None and isinstance(p, str):
@@ -800,11 +889,103 @@ def _patched_chdir(path):
 
 def _patched_os_open(path, flags, mode=0o777, *a, **k):
     w = WORLD
-    if w is not None:
+    if w is not None and k.get("dir_fd") is None:
         is_sim, p = w.route(path)
         if is_sim:
-            raise Unsupported("os.open on simulated path %s" % p)
+            return w.sim_os_open(p, flags)
     return _real["os_open"](path, flags, mode, *a, **k)
+
+
+def _patched_os_close(fd):
+    w = WORLD
+    if w is not None and fd in w.fds:
+        ent = w.fds.pop(fd)
+        if ent["raw"] is not None and not ent["raw"].closed:
+            ent["raw"].close()
+        return None
+    return _real["os_close"](fd)
+
+
+def _patched_os_write(fd, data):
+    w = WORLD
+    if w is not None and fd in w.fds:
+        return w.fd_raw(fd).write(data)
+    return _real["os_write"](fd, data)
+
+
+def _patched_os_read(fd, n):
+    w = WORLD
+    if w is not None and fd in w.fds:
+        buf = bytearray(n)
+        k = w.fd_raw(fd).readinto(buf)
+        return bytes(buf[:k])
+    return _real["os_read"](fd, n)
+
+
+def _patched_os_fsync(fd):
+    w = WORLD
+    if w is not None and fd in w.fds:
+        w.log_event(w.current, "fsync", w.fds[fd]["path"], "ok")
+        return None
+    return _real["os_fsync"](fd)
+
+
+def _patched_os_fstat(fd, *a, **k):
+    w = WORLD
+    if w is not None and fd in w.fds:
+        return os.stat_result((statmod.S_IFREG | 0o600, 0, 0, 1, 0, 0,
+                               len(w.files.get(w.fds[fd]["path"], b"")), 0, 0, 0))
+    return _real["os_fstat"](fd, *a, **k)
+
+
+# -- sources of nondeterminism that a "process" (task) may consult ---------------------------------------
+def _patched_getpid():
+    w = WORLD
+    if w is not None and w.current is not None:
+        t = w.current.task
+        return 40000 + 64 * (w.tasks.index(t) if t in w.tasks else 0) + w.current.no
+    return _real["getpid"]()
+
+
+def _patched_urandom(n):
+    w = WORLD
+    if w is not None and w.current is not None:
+        inc = w.current
+        out = b""
+        while len(out) < n:
+            inc.entropy += 1
+            out += hashlib.sha256(("%s/%d/%d" % (inc.task.name, inc.no, inc.entropy)).encode()).digest()
+        return out[:n]
+    return _real["urandom"](n)
+
+
+def _patched_time():
+    w = WORLD
+    if w is not None and w.current is not None:
+        return 1700000000.0 + w.step * 0.001        # simulated clock: one millisecond per gate
+    return _real["time"]()
+
+
+def _patched_time_ns():
+    w = WORLD
+    if w is not None and w.current is not None:
+        return int((1700000000.0 + w.step * 0.001) * 1e9)
+    return _real["time_ns"]()
+
+
+class _SimTempNames:
+    """replacement for tempfile._RandomNameSequence: names are a function of (task, incarnation, counter)"""
+
+    def __iter__(self):
+        return self
+
+    def __next__(self):
+        w = WORLD
+        if w is not None and w.current is not None:
+            inc = w.current
+            inc.entropy += 1
+            return hashlib.sha256(("%s/%d/%d" % (inc.task.name, inc.no, inc.entropy)).encode()).hexdigest()[:8]
+        return "%08x" % random.getrandbits(32)
 
 
 def _patched_access(path, mode, *a, **k):
@@ -844,6 +1025,10 @@ def install_seams():
     _real["os_open"] = os.open
     _real["access"] = os.access
     _real["scandir"] = os.scandir
+    for n, f in (("os_close", os.close), ("os_write", os.write), ("os_read", os.read), ("os_fsync", os.fsync),
+                 ("os_fstat", os.fstat), ("getpid", os.getpid), ("urandom", os.urandom), ("time", time.time),
+                 ("time_ns", time.time_ns)):
+        _real[n] = f
     real_stat = os.stat
 
     def exists_real(p):
@@ -870,6 +1055,16 @@ def install_seams():
     os.open = _patched_os_open
     os.access = _patched_access
     os.scandir = _patched_scandir
+    os.close = _patched_os_close
+    os.write = _patched_os_write
+    os.read = _patched_os_read
+    os.fsync = _patched_os_fsync
+    os.fstat = _patched_os_fstat
+    os.getpid = _patched_getpid
+    os.urandom = _patched_urandom
+    time.time = _patched_time
+    time.time_ns = _patched_time_ns
+    tempfile._name_sequence = _SimTempNames()
 
 
 def set_world(w):
